@@ -160,6 +160,7 @@ macro_rules! dispatch_type {
             "SynT" => $ref_m!($crate::synth::SynT, $req),
             "SynBig" => $ref_m!($crate::synth::SynBig, $req),
             "SynX" => $ref_m!($crate::synth::SynX, $req),
+            "SynC" => $ref_m!($crate::synth::SynC, $req),
             #[cfg(not(feature = "fpdec"))]
             "SynE" => $ref_m!($crate::synth::SynE, $req),
             "SynTwo" => $noref_m!($crate::synth::SynTwo, $req),
@@ -204,6 +205,7 @@ pub fn type_list() -> Vec<(&'static str, &'static str)> {
         ("SynT", "ref"),
         ("SynBig", "ref"),
         ("SynX", "ref"),
+        ("SynC", "ref"),
         ("SynTwo", "noref"),
         ("SynFive", "noref"),
         ("SynOne", "single"),
